@@ -24,17 +24,17 @@ type maxTS struct {
 
 // PartSnap is what the protocol shows about one partition.
 type PartSnap struct {
-	Earliest  int64            `json:"earliest"`   // ListOffsets -2
-	Latest    int64            `json:"latest"`     // ListOffsets -1 read_uncommitted
-	LatestRC  int64            `json:"latest_rc"`  // ListOffsets -1 read_committed
-	MaxTS     maxTS            `json:"max_ts"`     // ListOffsets -3
-	HWM       int64            `json:"hwm"`        // Fetch
-	LSO       int64            `json:"lso"`        // Fetch
-	LogStart  int64            `json:"log_start"`  // Fetch
-	Batches   [][]byte         `json:"batches"`    // Fetch read_uncommitted from Earliest, split
-	Committed [][]byte         `json:"committed"`  // Fetch read_committed from Earliest, split
-	Aborted   []aborted        `json:"aborted"`    // of the read_committed fetch
-	Producers []activeProducer `json:"producers"`  // DescribeProducers
+	Earliest  int64            `json:"earliest"`  // ListOffsets -2
+	Latest    int64            `json:"latest"`    // ListOffsets -1 read_uncommitted
+	LatestRC  int64            `json:"latest_rc"` // ListOffsets -1 read_committed
+	MaxTS     maxTS            `json:"max_ts"`    // ListOffsets -3
+	HWM       int64            `json:"hwm"`       // Fetch
+	LSO       int64            `json:"lso"`       // Fetch
+	LogStart  int64            `json:"log_start"` // Fetch
+	Batches   [][]byte         `json:"batches"`   // Fetch read_uncommitted from Earliest, split
+	Committed [][]byte         `json:"committed"` // Fetch read_committed from Earliest, split
+	Aborted   []aborted        `json:"aborted"`   // of the read_committed fetch
+	Producers []activeProducer `json:"producers"` // DescribeProducers
 }
 
 // Snap is the protocol-visible state the property talks about: topics, partition
@@ -410,9 +410,6 @@ func checkCrash(m *Model, fs *crashfs.FS, k int) (out outcome, err error) {
 		}
 		if ps.Latest != next || ps.HWM != next {
 			return out, violf("%s: log end after restart is %d (ListOffsets) / %d (Fetch high watermark) but the fetched batches end at %d", key, ps.Latest, ps.HWM, next)
-		}
-		if ps.LSO > ps.HWM || ps.LatestRC != ps.LSO {
-			return out, violf("%s: last stable offset after restart is %d (Fetch) / %d (ListOffsets read_committed) with high watermark %d", key, ps.LSO, ps.LatestRC, ps.HWM)
 		}
 		if end := ackedEnd[key]; next < end {
 			a := ackedBy[key]
